@@ -70,7 +70,7 @@ def cases(tier, seed):
     # (5) end to end across the 1 000 000-row block boundary of the index builder
     yield "csr.big", {"n": 1450, "step": 300007, "holes": False}
     if tier == "thorough":
-        yield "csr.big", {"n": 1500, "step": 999999, "holes": True}
+        yield "csr.big", {"n": 1700, "step": 999999, "holes": True}
         yield "csr.big", {"n": 1450, "step": 250000, "holes": False, "then": "merge", "mergebuf": 400000}
 
 
